@@ -73,7 +73,9 @@ impl Distribution<f64> for Exp1 {
         }
         #[inline]
         fn zero_case<R: Rng + ?Sized>(rng: &mut R, _u: f64) -> f64 {
-            ziggurat_tables::ZIG_EXP_R - rng.random::<f64>().ln()
+            // (0, 1]: a draw of exactly 0 would give an infinite sample
+            let u: f64 = rng.sample(crate::OpenClosed01);
+            ziggurat_tables::ZIG_EXP_R - u.ln()
         }
 
         ziggurat(
